@@ -385,7 +385,8 @@ Theorem C15_sort_mono_frag : forall g m a b oa ob, sort_mapping g = Ok m -> NoDu
 Proof. exact sort_mono_frag. Qed.
 
 (** the class resolve() stores, read off the cut: every new tuple is about four atoms lx - ax = ay - ly of the cut ((lx, ax)
-    on the first-enumerated anchor), and its class is pysmiles' table applied to the POSITIONS of the atoms in the
+    on the first-enumerated anchor = the anchor at the EARLIER position: rebuild_h_atoms appends its hydrogens,
+    C15_rebuild_keys_prefix, and G.edges reports an edge from its earlier end), and its class is pysmiles' table applied to the POSITIONS of the atoms in the
     concatenation of the parts ([wb] = comes earlier; the renumbering keeps the position order of any two atoms of the cut).
     Inside one part the position order is the written order: the geometric class of the marks as written, or the opposite
     when the ligand of the second-enumerated anchor is written before it (open class second_anchor_ligand_lower); for a
@@ -407,6 +408,7 @@ Theorem C15_returned_class_geom : forall C, wf_cut C -> forall fd, templates_ok 
       lx <> ax /\ lx <> ay /\ ly <> ay /\ ly <> ax /\
       (v = ez_tuple (map_get m (phi C lx)) (map_get m (phi C ax)) (map_get m (phi C ay)) (map_get m (phi C ly)) c \/
        v = ez_tuple (map_get m (phi C ly)) (map_get m (phi C ay)) (map_get m (phi C ax)) (map_get m (phi C lx)) c) /\
+      phi C ax < phi C ay /\
       c = class_val (if wb C ly ay then negb (geom C lx ax ay ly tx ty) else geom C lx ax ay ly tx ty).
 Proof. exact returned_class_geom. Qed.
 
@@ -612,3 +614,76 @@ Theorem C15_chain_family_order_invariant_bounded : forall n m o1 o2, (n <= 12)%n
 Proof. exact chain_family_order_invariant_bounded. Qed.
 Print Assumptions C15_chain_family_member.
 Print Assumptions C15_chain_family_order_invariant_bounded.
+
+(** ---- the stored class as an EXPLICIT function of the cut, and ez_cut_invariant (Stereo/EzRebuildOrder.v, EzCut.v) *)
+From CGV Require Import Stereo.EzRebuildOrder.
+Theorem C15_rebuild_keys_prefix : forall g g', NoDup (node_keys g) -> Hydrogens.rebuild_h_atoms_default g (Some g) = Ok g' ->
+  exists hs, node_keys g' = node_keys g ++ hs.
+Proof. exact rebuild_keys_prefix. Qed.
+(** for any four atoms of the cut: with tokens that say "side ux / uy" for the position order (inside a part: the tokens
+    OpenSMILES prescribes for those sides) the stored class is the TRUE relation (cis iff same side) exactly when the ligand
+    of the LATER anchor comes after its anchor ([late_after]), and the opposite otherwise *)
+Theorem C15_stored_class_sides : forall C, wf_cut C -> forall fd, templates_ok C fd -> wf_dict fd -> forall B, is_base C B ->
+  heavy_payload C -> numeric_orders C -> forall tok,
+  (forall name xs T i x n, In (name, xs) (c_parts C) -> fd_get name fd = Some T ->
+     nth_error xs i = Some x -> gfind (Z.of_nat i) T = Some n -> aget ezk (na n) = tok x) ->
+  forall prev fo, next_meta prev = B -> resolve_step_full true true fd prev (Some (fo_m3 fo)) = Ok fo ->
+  exists m, sort_mapping (fo_m4 fo) = Ok m /\
+    forall lx ax ay ly ux uy c k, In lx (flat C) -> In ax (flat C) -> In ay (flat C) -> In ly (flat C) ->
+      is_new (fo_m5 fo) (fo_mol fo) k
+        (ez_tuple (map_get m (phi C lx)) (map_get m (phi C ax)) (map_get m (phi C ay)) (map_get m (phi C ly)) c) ->
+      tok lx = Some (tok_of ux (wb C lx ax)) -> tok ly = Some (tok_of uy (wb C ly ay)) ->
+      c = class_val (if late_after C lx ax ay ly then Bool.eqb ux uy else negb (Bool.eqb ux uy)).
+Proof. exact stored_class_sides. Qed.
+(** ez_cut_invariant: ANY two cuts of the molecule (one fragment, cut at the double bond, cut elsewhere; any part order) whose
+    tokens say the same sides store the same class - the true relation - for the same four atoms, as long as in each of them
+    the ligand of the later anchor comes after its anchor *)
+Theorem C15_cut_invariant : forall C1 C2 fd1 fd2 B1 B2 tok1 tok2 prev1 prev2 fo1 fo2,
+  wf_cut C1 -> templates_ok C1 fd1 -> wf_dict fd1 -> is_base C1 B1 -> heavy_payload C1 -> numeric_orders C1 ->
+  wf_cut C2 -> templates_ok C2 fd2 -> wf_dict fd2 -> is_base C2 B2 -> heavy_payload C2 -> numeric_orders C2 ->
+  (forall name xs T i x n, In (name, xs) (c_parts C1) -> fd_get name fd1 = Some T ->
+     nth_error xs i = Some x -> gfind (Z.of_nat i) T = Some n -> aget ezk (na n) = tok1 x) ->
+  (forall name xs T i x n, In (name, xs) (c_parts C2) -> fd_get name fd2 = Some T ->
+     nth_error xs i = Some x -> gfind (Z.of_nat i) T = Some n -> aget ezk (na n) = tok2 x) ->
+  next_meta prev1 = B1 -> next_meta prev2 = B2 ->
+  resolve_step_full true true fd1 prev1 (Some (fo_m3 fo1)) = Ok fo1 -> resolve_step_full true true fd2 prev2 (Some (fo_m3 fo2)) = Ok fo2 ->
+  exists m1 m2, sort_mapping (fo_m4 fo1) = Ok m1 /\ sort_mapping (fo_m4 fo2) = Ok m2 /\
+    forall lx ax ay ly ux uy c1 c2 k1 k2,
+      In lx (flat C1) -> In ax (flat C1) -> In ay (flat C1) -> In ly (flat C1) ->
+      In lx (flat C2) -> In ax (flat C2) -> In ay (flat C2) -> In ly (flat C2) ->
+      tok1 lx = Some (tok_of ux (wb C1 lx ax)) -> tok1 ly = Some (tok_of uy (wb C1 ly ay)) ->
+      tok2 lx = Some (tok_of ux (wb C2 lx ax)) -> tok2 ly = Some (tok_of uy (wb C2 ly ay)) ->
+      late_after C1 lx ax ay ly = true -> late_after C2 lx ax ay ly = true ->
+      is_new (fo_m5 fo1) (fo_mol fo1) k1
+        (ez_tuple (map_get m1 (phi C1 lx)) (map_get m1 (phi C1 ax)) (map_get m1 (phi C1 ay)) (map_get m1 (phi C1 ly)) c1) ->
+      is_new (fo_m5 fo2) (fo_mol fo2) k2
+        (ez_tuple (map_get m2 (phi C2 lx)) (map_get m2 (phi C2 ax)) (map_get m2 (phi C2 ay)) (map_get m2 (phi C2 ly)) c2) ->
+      c1 = class_val (Bool.eqb ux uy) /\ c2 = class_val (Bool.eqb ux uy).
+Proof. exact cut_invariant. Qed.
+(** non-vacuity: the molecule of C15_order_invariant_strings_nonvacuous cut at the double bond and cut ELSEWHERE
+    ({[#A][#B]}.{#A=C(Cl)(/CC)=C(Br)/CC[$],#B=[$]C}), both through resolve_string: every hypothesis holds, both store `cis` *)
+Example C15_cut_invariant_nonvacuous :
+  to_string (sAB tP tQ) = "{[#A][#B]}.{#A=C(Cl)(/CC)=C(Br)/CC[$],#B=[$]C}"%string /\
+  exists fd1 fd2 o1 o2,
+    let tok1 := tok2 (keysX 0 1) (keysX 1 2) ez02 ez02 in let tokp := tok2 xsP [9] ezP [] in
+    wf_cut C12 /\ templates_ok C12 fd1 /\ wf_dict fd1 /\ is_base C12 (next_meta baseAB) /\ heavy_payload C12 /\ numeric_orders C12 /\
+    wf_cut C12p /\ templates_ok C12p fd2 /\ wf_dict fd2 /\ is_base C12p (next_meta baseAB) /\ heavy_payload C12p /\ numeric_orders C12p /\
+    (forall name xs T i x n, In (name, xs) (c_parts C12) -> fd_get name fd1 = Some T ->
+       nth_error xs i = Some x -> gfind (Z.of_nat i) T = Some n -> aget ezk (na n) = tok1 x) /\
+    (forall name xs T i x n, In (name, xs) (c_parts C12p) -> fd_get name fd2 = Some T ->
+       nth_error xs i = Some x -> gfind (Z.of_nat i) T = Some n -> aget ezk (na n) = tokp x) /\
+    resolve_string EzStringExamples.fo0 (sAB tA1 tB2) = Ok o1 /\ resolve_string EzStringExamples.fo0 (sAB tP tQ) = Ok o2 /\
+    resolve_step_full true true fd1 baseAB (Some (fo_m3 o1)) = Ok o1 /\ resolve_step_full true true fd2 baseAB (Some (fo_m3 o2)) = Ok o2 /\
+    let m1 := mapping_of_out o1 in let m2 := mapping_of_out o2 in
+    sort_mapping (fo_m4 o1) = Ok m1 /\ sort_mapping (fo_m4 o2) = Ok m2 /\
+    tok1 4 = Some (tok_of true (wb C12 4 0)) /\ tok1 5 = Some (tok_of true (wb C12 5 1)) /\
+    tokp 4 = Some (tok_of true (wb C12p 4 0)) /\ tokp 5 = Some (tok_of true (wb C12p 5 1)) /\
+    late_after C12 4 0 1 5 = true /\ late_after C12p 4 0 1 5 = true /\
+    is_new (fo_m5 o1) (fo_mol o1) (map_get m1 (phi C12 4))
+      (ez_tuple (map_get m1 (phi C12 4)) (map_get m1 (phi C12 0)) (map_get m1 (phi C12 1)) (map_get m1 (phi C12 5)) v_cis) /\
+    is_new (fo_m5 o2) (fo_mol o2) (map_get m2 (phi C12p 4))
+      (ez_tuple (map_get m2 (phi C12p 4)) (map_get m2 (phi C12p 0)) (map_get m2 (phi C12p 1)) (map_get m2 (phi C12p 5)) v_cis).
+Proof. exact cut_invariant_nonvacuous. Qed.
+Print Assumptions C15_rebuild_keys_prefix.
+Print Assumptions C15_stored_class_sides.
+Print Assumptions C15_cut_invariant.
